@@ -1601,6 +1601,10 @@ class Verifier(QuantMixin, LoopMixin, ExprMixin, CallMixin, StmtMixin, BuiltinsM
                 continue
             seen.add(k)
             todo.append((f, r, g))
+        fprops = tuple(dict.fromkeys(tuple(ct.props) + tuple(ct.clause_props.get('modifies', ()))))
+        self.oblige('frame', f'{len(pending)} heap writes on this path: {len(pending) - len(todo)} into objects allocated '
+                             f'by this call (decided syntactically), {len(todo)} checked against modifies='
+                             f'{list(ct.modifies)}', z3.BoolVal(True), fprops)
         if not todo:
             return
         allowed = []
@@ -1625,5 +1629,6 @@ class Verifier(QuantMixin, LoopMixin, ExprMixin, CallMixin, StmtMixin, BuiltinsM
             what = {'$seq': 'the items of', '$dict': 'the entries of'}.get(f, f'attribute {f} of')
             self.oblige('frame', f'writes {what} an object that is neither allocated by this call nor listed in '
                                  f'modifies={list(ct.modifies)}',
-                        z3.Or(*opts) if g is None else z3.Implies(g, z3.Or(*opts)), ct.props_of('modifies'),
+                        z3.Or(*opts) if g is None else z3.Implies(g, z3.Or(*opts)),
+                        tuple(dict.fromkeys(tuple(ct.props) + tuple(ct.clause_props.get('modifies', ())))),
                         info={'write': f})
